@@ -52,8 +52,14 @@ pub fn run(inp: &mut dyn BufRead, out: &mut dyn Write) {
                 std::env::set_current_dir(&dir).unwrap();
                 let mut outs = Vec::new();
                 for l in &t[2..] {
-                    let l = parse_str(l);
-                    let r = guarded(|| FilenameCompleter::new().complete_path(&l, l.len()));
+                    // `<before>` or `<before>|<after>`: the cursor sits between the two parts
+                    let (before, after) = match l.split_once('|') {
+                        Some((b, a)) => (parse_str(b), parse_str(a)),
+                        None => (parse_str(l), String::new()),
+                    };
+                    let pos = before.len();
+                    let l = before + &after;
+                    let r = guarded(|| FilenameCompleter::new().complete_path(&l, pos));
                     outs.push(match r {
                         None => "panic".to_owned(),
                         Some(Err(_)) => "err".to_owned(),
